@@ -2,6 +2,7 @@
 import ast
 
 from ..core import astutil as A
+from ..core import match as M
 from ..core import cfg as CFG
 from ..core.model import dotted
 
@@ -22,7 +23,10 @@ def run(ctx):
     wk = P.func(MOD, "map_async.<locals>.worker")
     # ---- R1 sentinel ------------------------------------------------------------------------------
     ps = iq.params()
-    cmpn = [n for n in A.walk(iq.node) if isinstance(n, ast.Compare) and isinstance(n.ops[0], (ast.Is, ast.Eq, ast.IsNot, ast.NotEq)) and A.unparse(n.left) == "item"]
+    got = M.one(iq.node, f"$item = {ps[1]}.get()")
+    ctx.require(got is not None, "iter_queue: item = <queue>.get() not found")
+    itemv = got["item"]
+    cmpn = [n for n in A.walk(iq.node) if isinstance(n, ast.Compare) and isinstance(n.ops[0], (ast.Is, ast.Eq, ast.IsNot, ast.NotEq)) and A.unparse(n.left) == itemv]
     ctx.require(len(cmpn) == 1, "iter_queue: stop-marker test not found")
     c = cmpn[0]
     rhs = c.comparators[0]
@@ -48,21 +52,30 @@ def run(ctx):
               f"the producer puts `{A.unparse(puts[0].args[0]) if puts else '?'}` but the consumers test for `{consumer}`: workers never stop (or stop on data)", node=fb)
     ploop = next((p for p in A.parents(puts[0]) if isinstance(p, ast.For)), None) if puts else None
     tloop = [n for n in ma.node.body if isinstance(n, ast.For) and any(dotted(x.func) == "threading.Thread" for x in A.calls(n))]
-    ctx.check("R1", ma, ploop is not None and len(tloop) == 1 and A.unparse(ploop.iter) == A.unparse(tloop[0].iter) == "range(parallelism)", "one-marker-per-worker", "exactly one stop marker per worker thread, put in the `finally` (also when feeding failed)")
+    ctx.check("R1", ma, ploop is not None and len(tloop) == 1 and A.unparse(ploop.iter) == A.unparse(tloop[0].iter) and M.pat("range($n)").matches(ploop.iter) is not None, "one-marker-per-worker", "exactly one stop marker per worker thread, put in the `finally` (also when feeding failed)")
     ctx.floor("R1", 4)
 
     # ---- R2 join dominates return ------------------------------------------------------------------------
     g = CFG.cfg_of(ma.node)
     dom = g.dominators()
-    rets = [r for r in A.returns(ma.node) if r.value is not None and A.unparse(r.value) == "results"]
-    ctx.require(len(rets) == 1, "map_async: `return results` not found")
+    resm = M.one(ma.node, "$res = deque()")
+    ctx.require(resm is not None, "map_async: results container (deque()) not found")
+    resv = resm["res"]
+    qm = M.one(ma.node, "$q = queue.Queue()")
+    ctx.require(qm is not None, "map_async: shared queue not found")
+    qv = qm["q"]
+    rets = [r for r in A.returns(ma.node) if r.value is not None and A.unparse(r.value) == resv]
+    ctx.require(len(rets) == 1, "map_async: return of the results container not found")
     rc = P.func(MOD, "reclaim_threads")
     joins = [x for x in A.calls(rc.node) if A.call_attr(x) == "join"]
     loop = [n for n in rc.node.body if isinstance(n, ast.For)]
     rc_ok = len(joins) == 1 and len(loop) == 1 and A.unparse(loop[0].iter) == rc.params()[0] and A.unparse(joins[0].func.value) == A.unparse(loop[0].target)
     ctx.check("R2", rc, rc_ok, "reclaim-joins-each", "reclaim_threads joins every thread it is given")
-    waits = [x for x in A.calls(ma.node) if dotted(x.func) == "reclaim_threads" and A.unparse(x.args[0]) == "threads"]
-    direct = [x for x in A.calls(ma.node) if A.call_attr(x) == "join" and not A.unparse(x.func.value).startswith(("q", "queue"))]
+    tl = M.one(ma.node, "$ths.append(threading.Thread(...))")
+    ctx.require(tl is not None, "map_async: list of worker threads not found")
+    thv = tl["ths"]
+    waits = [x for x in A.calls(ma.node) if dotted(x.func) == "reclaim_threads" and A.unparse(x.args[0]) == thv]
+    direct = [x for x in A.calls(ma.node) if A.call_attr(x) == "join" and A.unparse(x.func.value) != qv and any(isinstance(p, ast.For) and A.unparse(p.iter) == thv and A.unparse(p.target) == A.unparse(x.func.value) for p in A.parents(x))]
     rn = g.node_of(rets[0])
     dominated = any(g.node_of(w) in dom.get(rn, ()) for w in waits + direct)
     ctx.check("R2", ma, dominated and bool(waits or direct), f"threads-joined-before-return:{len(waits)}+{len(direct)}", "every path to `return results` has joined the worker threads",
@@ -71,20 +84,20 @@ def run(ctx):
     ctx.check("R2", ma, len(th) == 1 and not any(k.arg == "daemon" and A.is_const(k.value, True) for k in th[0].keywords), "non-daemon-workers", "workers are ordinary (non-daemon) threads")
     started = [x for x in A.calls(ma.node) if A.call_attr(x) == "start"]
     sl = next((p for p in A.parents(started[0]) if isinstance(p, ast.For)), None) if started else None
-    ctx.check("R2", ma, sl is not None and A.unparse(sl.iter) == "threads", "all-started", "every created thread is started")
+    ctx.check("R2", ma, sl is not None and A.unparse(sl.iter) == thv, "all-started", "every created thread is started")
     ctx.floor("R2", 4)
 
     # ---- R3 streaming decided per result --------------------------------------------------------------------------
     res = [(t, v) for t, v, _ in A.assignments(wk.node) if isinstance(t, ast.Name) and isinstance(v, ast.Call) and A.unparse(v.func) == "functor"]
     ctx.require(len(res) == 1, "worker: result = functor(...) not found")
     rname = res[0][0].id
-    ext = [x for x in A.calls(wk.node) if A.unparse(x.func) == "results.extend"]
+    ext = [x for x in A.calls(wk.node) if A.unparse(x.func) == f"{resv}.extend"]
     ctx.require(len(ext) == 1, "worker: results.extend not found")
     guard = next((p for p in A.parents(ext[0]) if isinstance(p, ast.If)), None)
     ok = guard is not None and isinstance(guard.test, ast.Call) and dotted(guard.test.func) == "isinstance" and A.unparse(guard.test.args[0]) == rname and "GeneratorType" in A.unparse(guard.test.args[1])
     ctx.check("R3", wk, ok, f"streaming-by-result-type:{A.unparse(guard.test)[:40] if guard is not None else ''}", "whether to drain is decided from the result object itself (isinstance(result, GeneratorType))",
               f"worker decides to drain under `{A.unparse(guard.test) if guard is not None else '?'}`: a callable that RETURNS a generator without being a generator function (decorator wrapper, callable object, lambda) gets its unstarted generator appended instead of drained — the worker body never runs on any item", node=ext[0])
-    ctx.check("R3", wk, A.unparse(ext[0].args[0]) == rname and any(A.unparse(x) == f"results.append({rname})" for x in A.calls(wk.node)), "drain-or-append", "a generator result is drained into results, any other non-None result appended")
+    ctx.check("R3", wk, A.unparse(ext[0].args[0]) == rname and any(A.unparse(x) == f"{resv}.append({rname})" for x in A.calls(wk.node)), "drain-or-append", "a generator result is drained into results, any other non-None result appended")
     ctx.check("R3", wk, f"if {rname} is not None:" in A.unparse(wk.node), "none-skipped", "None results are skipped (every non-empty result is kept)")
     ctx.floor("R3", 3)
 
@@ -94,12 +107,21 @@ def run(ctx):
     ctx.check("R4", ma, len(feeds) == 1 and fl is not None and A.unparse(fl.iter) == "iterable" and A.unparse(feeds[0].args[0]) == A.unparse(fl.target), "each-item-put-once", "each input item is enqueued exactly once")
     gets = [x for x in A.calls(iq.node) if A.call_attr(x) == "get"]
     ys = [y for y in A.walk(iq.node) if isinstance(y, ast.Yield)]
-    ctx.check("R4", iq, len(gets) == 1 and len(ys) == 1 and A.unparse(ys[0].value) == "item" and "item = qlist.get()" in A.unparse(iq.node), "handoff-through-queue", "a worker obtains items only through Queue.get (each item reaches one worker) and yields each once")
-    ctx.check("R4", ma, "q = queue.Queue()" in A.unparse(ma.node) and "results = deque()" in A.unparse(ma.node), "thread-safe-containers", "the shared containers are a Queue and a deque (atomic append/extend)")
+    ctx.check("R4", iq, len(gets) == 1 and len(ys) == 1 and A.unparse(ys[0].value) == itemv, "handoff-through-queue", "a worker obtains items only through Queue.get (each item reaches one worker) and yields each once")
+    ctx.check("R4", ma, qm is not None and resm is not None, "thread-safe-containers", "the shared containers are a Queue and a deque (atomic append/extend)")
     t = A.unparse(ma.node)
-    ctx.check("R4", ma, "targs = (iter_queue(kill, q" in t and "+ args + per_thread_args()" in t, "feed-is-first-arg", "every worker is handed its own feed over the one shared queue")
+    tav = next((A.unparse(k.value) for k in th[0].keywords if k.arg == "args"), None) if th else None
+    feed_ok = False
+    if tav:
+        for t_, v, _ in A.assignments(ma.node, tav):
+            first = v
+            while isinstance(first, ast.BinOp) and isinstance(first.op, ast.Add):
+                first = first.left
+            feed_ok = isinstance(first, ast.Tuple) and len(first.elts) == 1 and isinstance(first.elts[0], ast.Call) and A.unparse(first.elts[0].func) == "iter_queue" and qv in [A.unparse(a) for a in first.elts[0].args] and "args" in A.names_in(v)
+    ctx.check("R4", ma, feed_ok, "feed-is-first-arg", "every worker is handed its own feed over the one shared queue")
     hs = [h for n in A.body_walk(ma.node) if isinstance(n, ast.Try) for h in n.handlers]
-    ctx.check("R4", ma, any("kill.set()" in A.unparse(h) and isinstance(h.body[-1], ast.Raise) for h in hs), "feed-failure-stops-workers", "a failing feed sets the kill flag and re-raises (after the finally woke and joined the workers)")
+    km = M.one(ma.node, "$kill = threading.Event()")
+    ctx.check("R4", ma, km is not None and any(M.has(h.body, "$kill.set()\nraise", km.env) for h in hs), "feed-failure-stops-workers", "a failing feed sets the kill flag and re-raises (after the finally woke and joined the workers)")
     ctx.floor("R4", 5)
 
 
